@@ -391,7 +391,7 @@ func runC42(c *Ctx) {
 	ac := c.Func("spec/transport", "StreamRouter", "acceptChord")
 	var physLoads, virtLoads []*ast.CallExpr
 	for _, call := range methodCalls(ac, false, "Load") {
-		pv := ac.Prov(call.Fun.(*ast.SelectorExpr).X)
+		pv := ac.enclosing(call).Prov(call.Fun.(*ast.SelectorExpr).X)
 		switch {
 		case strings.HasSuffix(pv, ".physicalChordHandlers"):
 			physLoads = append(physLoads, call)
@@ -399,26 +399,38 @@ func runC42(c *Ctx) {
 			virtLoads = append(virtLoads, call)
 		}
 	}
-	c.Floor("acceptChord lookups", len(physLoads)+len(virtLoads), 3)
+	c.Floor("acceptChord lookups", len(physLoads)+len(virtLoads), 2)
 	for _, pl := range physLoads {
-		fs := ac.FactsAt(pl)
-		// physical lookup only when no virtual map exists for the kind, or the virtual lookup missed
-		noMap := fs.Has(func(fa *Fact) bool {
-			return fa.Kind == FFalse && fa.Idx == 1 && strings.HasSuffix(ac.Prov(fa.Call.Fun.(*ast.SelectorExpr).X), ".virtualChordHandlers")
-		})
-		missed := fs.Has(func(fa *Fact) bool {
-			for _, v := range virtLoads {
-				if fa.Call == v && fa.Kind == FFalse && fa.Idx == 1 {
+		// physical lookup only when no virtual map exists for the kind, or the virtual
+		// lookup missed: with the edges "outer map not found" and "virtual handler not found"
+		// removed, the lookup is unreachable (the two may lead to one shared fallback)
+		g := ac.enclosing(pl)
+		isMiss := func(at atom) bool {
+			if at.tag != nil || at.truth {
+				return false
+			}
+			pv := g.Prov(at.e)
+			return strings.HasSuffix(pv, ".virtualChordHandlers.Load()#1") || strings.Contains(pv, ".virtualChordHandlers.Load()#0.Load()#1")
+		}
+		reached, _ := g.Reach(nil, nil, func(b *cfgBlock, si int) bool {
+			for _, at := range g.edgeAtoms(b, si) {
+				if isMiss(at) {
 					return true
 				}
 			}
 			return false
 		})
-		c.Ob("dispatch-order", "acceptChord#physical-only-after-virtual-missed", pl.Pos(), noMap || missed, "the physical handler is consulted only when there is no virtual handler for (kind, peer id)")
-		c.Ob("dispatch-order", "acceptChord#physical-by-kind", pl.Pos(), strings.HasSuffix(ac.Prov(pl.Args[0]), ".Kind"), "the physical handler is looked up by the stream kind")
+		bypass := false
+		for _, n := range reached {
+			if containsNode(n, pl) {
+				bypass = true
+			}
+		}
+		c.Ob("dispatch-order", "acceptChord#physical-only-after-virtual-missed", pl.Pos(), !bypass, "the physical handler is consulted only when there is no virtual handler for (kind, peer id)")
+		c.Ob("dispatch-order", "acceptChord#physical-by-kind", pl.Pos(), strings.HasSuffix(g.Prov(pl.Args[0]), ".Kind"), "the physical handler is looked up by the stream kind")
 	}
 	for _, v := range virtLoads {
-		c.Ob("dispatch-order", "acceptChord#virtual-by-peer-id", v.Pos(), strings.HasSuffix(ac.Prov(v.Args[0]), ".Identity.GetId()"), "the virtual handler is looked up by the peer node id")
+		c.Ob("dispatch-order", "acceptChord#virtual-by-peer-id", v.Pos(), strings.HasSuffix(ac.enclosing(v).Prov(v.Args[0]), ".Identity.GetId()"), "the virtual handler is looked up by the peer node id")
 	}
 	for _, name := range []string{"acceptChord", "acceptTunnel"} {
 		fn := c.Func("spec/transport", "StreamRouter", name)
